@@ -12,7 +12,7 @@ ddir=$(head -1 "$M/demo_test.go" | sed -n 's,^// *dir: *,,p'); ddir=${ddir:-.}
 # optional header lines of the demonstration: "// needs: -race" and "// run: <TestName>" (must be alone in its process)
 dflags=""
 head -5 "$M/demo_test.go" | grep -q '^// *needs:.*-race' && dflags="-race"
-drun=$(head -5 "$M/demo_test.go" | sed -n 's,^// *run: *,,p' | head -1); drun=${drun:-.}
+drun=$(head -5 "$M/demo_test.go" | sed -n 's,^// *run: *\([^ ]*\).*,\1,p' | head -1); drun=${drun:-.}
 T=$(mktemp -d /tmp/mutant.XXXXXX)
 # demo without the patch
 cp "$M/demo_test.go" "$ddir/zz_demo_test.go"
